@@ -285,7 +285,7 @@ pub fn sched(input: &str, out: &mut impl std::io::Write) {
                 let r = run_op(&t[1..]);
                 writeln!(out, "P {} => {}", t[1..].join(" "), r).unwrap();
             }
-            "A" => { a_op = t[1..].iter().map(|s| s.to_string()).collect(); note_used(&t[1..], &mut used); }
+            "A" => { a_op = t[1..].iter().map(|s| s.to_string()).collect(); note_used(&t[1..], &mut used); writeln!(out, "AOP {}", t[1..].join(" ")).unwrap(); }
             "B" => { b_op = t[1..].iter().map(|s| s.to_string()).collect(); note_used(&t[1..], &mut used); }
             "PAUSE" => pause = t[1].parse().unwrap(),
             "Q" => { probes.push(t[1..].iter().map(|s| s.to_string()).collect()); note_used(&t[1..], &mut used); }
@@ -336,6 +336,23 @@ pub fn sched(input: &str, out: &mut impl std::io::Write) {
         }
         std::thread::sleep(Duration::from_millis(1));
     }
+    // mid-execution snapshot: A is parked between two of its critical sections holding nothing
+    // and B has finished, so the caches can be read; they must be consistent up to A's pending store
+    let mut mid: Vec<String> = Vec::new();
+    if reached && held_at_pause.is_empty() && !b_blocked && done_b.lock().unwrap().is_some() {
+        let me = TID.with(|c| c.get());
+        set_tid(usize::MAX);
+        for f in &used {
+            if corpus::flavour(*f) == 't' {
+                continue;
+            }
+            let s = take_snapshot(*f);
+            let q: Vec<String> = s.queue.iter().map(|k| k.to_string()).collect();
+            let st: Vec<String> = s.store.iter().map(|(k, e, fr, _)| format!("{}:{}:{}", k, e, fr)).collect();
+            mid.push(format!("WM {} | {} | {}", f, if q.is_empty() { "-".into() } else { q.join(",") }, if st.is_empty() { "-".into() } else { st.join(";") }));
+        }
+        set_tid(me);
+    }
     tr.resume();
     // both must finish
     let mut dl = Instant::now() + Duration::from_millis(1200);
@@ -381,6 +398,9 @@ pub fn sched(input: &str, out: &mut impl std::io::Write) {
              held_at_pause.iter().map(|l| r.get(l).cloned().unwrap_or_else(|| "?".into())).collect::<Vec<_>>().join(",")).unwrap();
     writeln!(out, "RA {}", done_a.lock().unwrap().clone().unwrap()).unwrap();
     writeln!(out, "RB {}", done_b.lock().unwrap().clone().unwrap()).unwrap();
+    for l in &mid {
+        writeln!(out, "{}", l).unwrap();
+    }
     let dump = |out: &mut dyn std::io::Write, used: &Vec<usize>| {
         for f in used {
             if corpus::flavour(*f) == 't' {
